@@ -261,8 +261,19 @@ func workerMain(args []string) int {
 		spec := part.Gen(rs)
 		opts := part.Opts
 		opts.StopOn = *prop
-		res := ExecuteAny(spec, opts)
+		var res *RunResult
+		if part.Exec != nil {
+			res = part.Exec(spec, opts)
+		} else {
+			res = ExecuteAny(spec, opts)
+		}
+		spec = res.Spec
 		agg.Runs++
+		if res.Sub > 1 {
+			agg.Runs += res.Sub - 1
+			agg.Extra["instances"]++
+			agg.Extra["crash_points_enumerated"] += float64(res.Sub - 1)
+		}
 		agg.Steps += int64(res.Steps)
 		agg.Events += int64(res.Events)
 		agg.SimNS += res.SimTimeNS
@@ -288,7 +299,11 @@ func workerMain(args []string) int {
 		if nt {
 			pp[1]++
 			agg.Nontrivial++
-			if len(distinct) < 2000000 {
+			if len(res.Keys) > 0 {
+				for _, k := range res.Keys {
+					distinct[k] = true
+				}
+			} else if len(distinct) < 2000000 {
 				distinct[res.Interleave] = true
 			}
 			if len(agg.Samples) < 2 {
